@@ -10,6 +10,7 @@ import hashlib
 import json
 import os
 import random
+import re
 import sys
 import time
 import traceback
@@ -186,7 +187,11 @@ def main(prop, module):
         if msg:
             fid = None
             for f in findings:
-                if f["match"] in key or f["match"] in msg:
+                if f.get("match_regex"):
+                    # a listed finding is identified by the shape of the failing input AND what fails, not by either alone
+                    if re.search(f["match_regex"], key + "\n" + msg, re.S):
+                        fid = f["id"]
+                elif f["match"] in key or f["match"] in msg:
                     fid = f["id"]
             if fid is None or not any(v.get("finding") == fid for v in violations):
                 h = hashlib.sha1((key + msg).encode()).hexdigest()[:10]
